@@ -7,6 +7,7 @@ CONSTANTS McDepth = 2
           GenChainOps = 3
           GenFuncCfgName = "c1"
           GenLenOps = 2
+          GenProdFull = FALSE
           GenPtr = FALSE
           SimMinDepth = 4
           SimMaxDepth = 4
